@@ -45,6 +45,24 @@ def family(run):
         progs.append("local " + ", ".join(f"{n} = {i}" for i, n in enumerate(names)) + "; local inner = 1; "
                      + "function(p) abY")
         progs.append("local o = {" + ", ".join(f"{n}: {i}" for i, n in enumerate(names)) + "}; {x: super.abX} + o")
+    # objects with several failing / differing fields, through every operation that walks fields: the error
+    # reported (or false vs. error) must not depend on enumeration order
+    fnames = ["alpha", "beta", "gamma", "delta", "eps", "zeta", "eta", "theta"]
+    for n in (2, 3, 5, 8):
+        ks = fnames[:n]
+        allerr = "{" + ", ".join(f"{k}: error '{k} failed'" for k in ks) + "}"
+        someerr = "{" + ", ".join(f"{k}: {i}" if i % 2 == 0 else f"{k}: error '{k} failed'" for i, k in enumerate(ks)) + "}"
+        plain = "{" + ", ".join(f"{k}: {i}" for i, k in enumerate(ks)) + "}"
+        other = "{" + ", ".join(f"{k}: {i + 10}" for i, k in enumerate(ks)) + "}"
+        for a, b in ((allerr, plain), (plain, allerr), (someerr, other), (other, someerr), (someerr, plain), (allerr, allerr)):
+            progs += [f"{a} == {b}", f"{a} != {b}", f"std.equals({a}, {b})", f"std.assertEqual({a}, {b})",
+                      f"std.member([{b}, {a}], {b})", f"std.count([{a}, {b}], {a})", f"std.find({a}, [{b}, {a}])",
+                      f"[{a}] == [{b}]", f"std.primitiveEquals({a}, {b})"]
+        progs += [f"std.prune({allerr})", f"std.mapWithKey(function(k, v) v, {allerr})", f"std.objectValues({allerr})",
+                  f"std.mergePatch({plain}, {allerr})", f"std.mergePatch({allerr}, {other})", f"std.toString({someerr})",
+                  f"std.manifestJsonEx({allerr}, '  ')", f"{plain} + {allerr}", f"std.sort([{plain}, {other}])",
+                  f"std.set([{plain}, {other}], function(o) o.alpha)", f"std.objectKeysValues({someerr})",
+                  f"{{[k]: {allerr}[k] for k in std.objectFields({plain})}}", f"std.length({allerr})"]
     # several possible errors
     progs += ['{a: error "1", b: error "2", c: error "3"}', '[error "x", error "y"]',
               '{a: 1, assert false : "first", assert false : "second"}', 'std.map(function(x) error x, ["p", "q"])',
